@@ -179,7 +179,7 @@ def check(an: Analysis) -> None:
                 ob.fail(gen, lp, "the source is iterated outside the stream's scope: its completion fires before the stream ended / metrics land elsewhere")
         cm = w.items[0].context_expr
         oo = gen_origins(cm)
-        if not any("ctx.scope" in o for o in oo):
+        if not any("ctx.scope" in o or o.endswith("ScopeContext") for o in oo):
             ob.fail(gen, w, "the scope entered is not the nested scope prepared when the stream was created")
     body = [s for s in gen.node.body if not (isinstance(s, ast.Expr) and isinstance(s.value, ast.Constant))]
     if len(body) != 1 or not withs or body[0] is not withs[0]:
@@ -191,7 +191,7 @@ def check(an: Analysis) -> None:
     # ------------------------------------------------------------------ C11.5 snapshot and scope prepared at creation time
     ob = an.ob("C11.5", "K5", "ctx.stream takes copy_context() and builds the nested scope (named after the source) when called - before returning the iterator - and returns the wrapper", [STREAM])
     snaps = [c for c in stream.own_nodes() if isinstance(c, ast.Call) and an.callee(stream, c) == "contextvars.copy_context"]
-    scopes = [c for c in stream.own_nodes() if isinstance(c, ast.Call) and an.callee(stream, c) == "haiway.context.access.ctx.scope"]
+    scopes = [c for c in stream.own_nodes() if isinstance(c, ast.Call) and an.callee(stream, c) in ("haiway.context.access.ctx.scope", sctx)]  # ctx.scope(...) or the ScopeContext it builds
     if not snaps:
         ob.fail(stream, None, "no context snapshot is taken when the stream is created")
     if len(scopes) != 1:
@@ -199,7 +199,8 @@ def check(an: Analysis) -> None:
     for c in snaps + scopes:
         ob.inst(stream, c)
     for c in scopes:
-        a = unwrap(d.inline(c.args[0])) if c.args else None
+        a0 = c.args[0] if c.args else next((k.value for k in c.keywords if k.arg == "name"), None)
+        a = unwrap(d.inline(a0)) if a0 is not None else None
         ok = isinstance(a, ast.Call) and is_name(a.func, "getattr") and len(a.args) == 3 and is_name(a.args[0], src_param) and isinstance(a.args[1], ast.Constant) and a.args[1].value == "__name__"
         if not ok:
             ob.fail(stream, c, "the stream scope is not named after the source generator")
